@@ -79,6 +79,8 @@ def run(t, budget=1.0):
                 b[pos:pos + width] = M.pack(v, width)
                 img = bytes(b)
                 res.cls("hostile_" + c[0])
+                # size_bytes_checked on hostile counts is C06's subject (known unbounded-work finding): not run here
+                cmds = [x for x in READ_CMDS if x != "checked"]
             full = len(img)
             ns = list(range(0, full + 1)) if full <= 300 else sorted(set([0, 1, full - 1, full] + data.draw(st.lists(st.integers(0, full), min_size=60, max_size=60))))
             cmd = data.draw(st.sampled_from(cmds))
@@ -105,6 +107,9 @@ def run(t, budget=1.0):
                 key = common.text_hash(entry.dir, cmd, img, str(n))
                 if oc == "ASSERT" or n == full:
                     res.nontriv(key)
+                if oc == "OUTLIMIT":
+                    res.cls("inconclusive_output_limit")
+                    continue
                 if oc == "OK" and "view extends past the buffer" in resp:
                     pc.fail("unchecked-view-extent:%s" % cmd.replace(" ", "-"), entry,
                             {"cmd": line, "config": cfg, "n": n, "full": full, "expect": "OK-or-ASSERT", "actual": resp[:300]},
